@@ -380,6 +380,24 @@ class BlackbirdProgram:
         """
         return len(self._operations)
 
+    def _is_ptype_reference(self, value):
+        """Returns ``True`` if the string ``value`` refers by name to a p-type array
+        (``p0``, ``p1``, ...) declared in this tdm program; any other string
+        (including the empty string) is an ordinary string argument.
+
+        Args:
+            value (str): string argument of an operation
+
+        Returns:
+            bool: True if the string is the name of a p-type array of the program
+        """
+        return (
+            self.programtype["name"] == "tdm"
+            and value[:1] == "p"
+            and value[1:].isdigit()
+            and value in self._var
+        )
+
     def serialize(self):
         """Serializes the blackbird program, returning a valid Blackbird script
         as a string.
@@ -474,7 +492,7 @@ class BlackbirdProgram:
                     elif isinstance(v, str):
                         # argument is a string type; if a p-type parameter (e.g. p0),
                         # then simply add it as is
-                        if self.programtype["name"] == "tdm" and v[0] == "p" and v[1:].isdigit():
+                        if self._is_ptype_reference(v):
                             args.append(v)
                         else:
                             args.append('"{}"'.format(v))
@@ -512,7 +530,7 @@ class BlackbirdProgram:
                     elif isinstance(v, str):
                         # kwarg is a string type; if a p-type parameter (e.g. p0),
                         # then simply add it as is
-                        if self.programtype["name"] == "tdm" and v[0] == "p" and v[1:].isdigit():
+                        if self._is_ptype_reference(v):
                             kwargs.append("{}={}".format(k, v))
                         else:
                             kwargs.append('{}="{}"'.format(k, v))
